@@ -9,7 +9,9 @@ import (
 	"context"
 	"fmt"
 	"sort"
+	"os"
 	"strings"
+	stdsync "sync"
 	"testing"
 	"time"
 
@@ -25,10 +27,15 @@ import (
 // recCons is a recording consumer on a real poly-go Closer.
 type recCons struct {
 	psync.Closer
+	mu  stdsync.Mutex // only contended in the free-running race audit (under the scheduler one thread runs at a time)
 	got []string
 }
 
-func (c *recCons) Put(e *wire.Envelope) { c.got = append(c.got, name(e)) }
+func (c *recCons) Put(e *wire.Envelope) {
+	c.mu.Lock()
+	c.got = append(c.got, name(e))
+	c.mu.Unlock()
+}
 
 func name(e *wire.Envelope) string { return e.Msg.(*wire.ShutdownMsg).Reason }
 func env(s string) *wire.Envelope  { return &wire.Envelope{Msg: &wire.ShutdownMsg{Reason: s}} }
@@ -202,29 +209,65 @@ func lookup(n string) scenario {
 func exec(t *testing.T, ssc schedrun.Scenario, o vsched.Options) (*vsched.Sched, any) {
 	sc := lookup(ssc.Name)
 	obs := &observation{cons: map[string][]string{}}
-	s := vsched.Run(t, o, func() {
+	s := vsched.Run(t, o, func() { body(sc, obs, false) })
+	return s, obs
+}
+
+// body is one run of a scenario. With race=true it is the free-running variant used by the
+// race audit (no scheduler active: every vsched call is a pass-through to the plain operation).
+func body(sc scenario, obs *observation, race bool) {
+	{
 		r := wire.NewRelay()
-		r.SetDefaultMsgHandler(func(e *wire.Envelope) { obs.def = append(obs.def, name(e)) })
+		var defMu stdsync.Mutex
+		r.SetDefaultMsgHandler(func(e *wire.Envelope) {
+			defMu.Lock()
+			obs.def = append(obs.def, name(e))
+			defMu.Unlock()
+		})
+		// all consumers and cache predicates exist before the threads start: the maps are read-only
+		// afterwards (the free-running race audit must not see races of the harness itself)
 		recs := map[string]*recCons{}
 		rcvs := map[string]*wire.Receiver{}
+		var used []string
+		for _, n := range []string{"c0", "c1", "c2"} {
+			mentioned := false
+			for _, o := range inits[sc.init] {
+				mentioned = mentioned || o.Arg == n
+			}
+			for _, th := range sc.progs {
+				for _, o := range th {
+					mentioned = mentioned || o.Arg == n
+				}
+			}
+			if !mentioned {
+				continue
+			}
+			used = append(used, n)
+			if sc.consumer == "receiver" {
+				rcvs[n] = wire.NewReceiver()
+			} else {
+				recs[n] = &recCons{}
+			}
+		}
 		consumer := func(n string) wire.Consumer {
 			if sc.consumer == "receiver" {
-				if rcvs[n] == nil {
-					rcvs[n] = wire.NewReceiver()
-				}
 				return rcvs[n]
-			}
-			if recs[n] == nil {
-				recs[n] = &recCons{}
 			}
 			return recs[n]
 		}
 		cachePreds := map[string]*wire.Predicate{}
+		for _, n := range []string{"all", "e1", "e12"} {
+			p := wire.Predicate(preds[n])
+			cachePreds[n] = &p
+		}
 		clock := 0
+		var evMu stdsync.Mutex
 		do := func(th int, o op) {
+			evMu.Lock()
 			clock++
 			ev := &event{op: o, thread: th, call: clock}
 			obs.evs = append(obs.evs, ev)
+			evMu.Unlock()
 			switch o.Kind {
 			case "put":
 				r.Put(env(o.Arg))
@@ -233,9 +276,7 @@ func exec(t *testing.T, ssc schedrun.Scenario, o vsched.Options) (*vsched.Sched,
 					ev.err = err.Error()
 				}
 			case "cache":
-				p := wire.Predicate(preds[o.Pred])
-				cachePreds[o.Pred] = &p
-				r.Cache(&p)
+				r.Cache(cachePreds[o.Pred])
 			case "release":
 				if p := cachePreds[o.Pred]; p != nil {
 					r.ReleaseCache(p)
@@ -245,8 +286,10 @@ func exec(t *testing.T, ssc schedrun.Scenario, o vsched.Options) (*vsched.Sched,
 					c.Close() //nolint:errcheck
 				}
 			}
+			evMu.Lock()
 			clock++
 			ev.ret = clock
+			evMu.Unlock()
 		}
 		for _, o := range inits[sc.init] {
 			do(-1, o)
@@ -263,6 +306,11 @@ func exec(t *testing.T, ssc schedrun.Scenario, o vsched.Options) (*vsched.Sched,
 		}
 		for range sc.progs {
 			vsched.Recv(done)
+		}
+		if race {
+			time.Sleep(200 * time.Microsecond)
+			r.Close() //nolint:errcheck
+			return
 		}
 		vsched.Sleep(time.Second) // asynchronous deliveries and deletes
 		for n, c := range recs {
@@ -293,8 +341,33 @@ func exec(t *testing.T, ssc schedrun.Scenario, o vsched.Options) (*vsched.Sched,
 		if err := r.Close(); err != nil { // remaining cache size is only visible through Close's error
 			fmt.Sscanf(err.Error(), "cache was not empty (%d)", &obs.cache)
 		}
-	})
-	return s, obs
+	}
+}
+
+// TestRace is the free-running race audit (DESIGN.md 2.3 (b)): the same thread programs run
+// with real goroutines under Go's race detector, because the cooperative scheduler's hand-offs
+// are happens-before edges that blind it. Auxiliary evidence: the driver turns every report
+// of the detector into a violation; silence proves nothing.
+func TestRace(t *testing.T) {
+	res := report.New("C18", "relay-race")
+	defer res.Write() //nolint:errcheck
+	iters := 40
+	if res.Thorough() {
+		iters = 400
+	}
+	for _, ssc := range scenarios(res) {
+		sc := lookup(ssc.Name)
+		if len(sc.progs) > 2 && !res.Thorough() {
+			continue
+		}
+		for i := 0; i < iters; i++ {
+			body(sc, &observation{cons: map[string][]string{}}, true)
+			res.Count("evaluations", 1)
+		}
+		res.Count("scenarios", 1)
+	}
+	res.Counters["distinct_nontrivial"] = res.Counters["scenarios"]
+	res.Note("race audit: %d free-running iterations per scenario under -race (GORACE log: %s)", iters, os.Getenv("GORACE"))
 }
 
 // ---- sequential reference model ----
